@@ -124,6 +124,18 @@ package logf
 //@   site if#12 assert [C03] buf.buf.bytes == e8
 //@   site if#14 assert [C03] buf.buf.bytes == e9
 //@   site if#16 assert [C03] buf.buf.bytes == e10
+//@   site ).Write#0 assert [C03] $2 == 0
+//@   site ).Write#1 assert [C03] $2 == 1
+//@   site ).Write#2 assert [C03] $2 == 2
+//@   site ).Write#3 assert [C03] $2 == 3
+//@   site ).Write#4 assert [C03] $2 == 4
+//@   site ).Write#5 assert [C03] $2 == 5
+//@   site ).Write#6 assert [C03] $2 == 6
+//@   site ).Write#7 assert [C03] $2 == 7
+//@   site ).Write#8 assert [C03] $2 == 8
+//@   site ).Write#9 assert [C03] $2 == 9
+//@   site ).Write#10 assert [C03] $2 == 10
+//@   sites ).Write = 11
 //@   safety [C03]
 //
 //@ func (*LogInfo).WriteBlock
